@@ -166,7 +166,12 @@ def rule_notify(report, prog, res):
                         conds_above = [a for a in ancestors(st) if isinstance(a, (ast.If, ast.While, ast.For, ast.Try))
                                        and a is not f.node]
                         locked = any(isinstance(a, ast.With) for a in ancestors(st))
-                        if not conds_above and locked:
+                        # ... and on every path through the function: no normal exit is reachable without passing the call
+                        # (an early `return` in front of it -- "already closed" -- leaves the waiters asleep)
+                        g_ = cfg_of(f)
+                        cn = cfg_node_for(g_, st)
+                        bypass = cn is None or g_.exit in g_.reachable(g_.entry, avoid_nodes=[cn], labels_excluded=('exc',))
+                        if not conds_above and locked and not bypass:
                             hit = (f, c)
             report.check(hit is not None, 'C09-R3', key(cq, '%s() notify_all on %s under the lock' % (closer, attr)),
                          chain[0].loc(), '%s.%s() does not unconditionally notify_all() waiters of %s' % (cls.name, closer, attr))
@@ -418,6 +423,11 @@ def run(report, prog, tier):
     rule_saptable(report, prog, res)
     rule_service_threads(report, prog, res)
     rule_shutdown_order(report, prog, res)
+    # terminate() calls mac.deactivate() before it shuts the access points down: the NFC-DEP release handshake has to end whatever the
+    # peer does (loops bounded by counters / a deadline that is not re-armed, C04-R5) -- reported here as C09-R8
+    from . import c04
+    report.run_as({'C04-R5': 'C09-R8'}, c04.rule_loops, prog)
+    report.run_as({'C04-R5': 'C09-R8'}, c04.rule_deadlines, prog)
     report.trusted += ['interface summary: ContactlessFrontend.exchange raises only CommunicationError subclasses or IOError (property C13)',
                        'threading.RLock is re-entrant: a caller holding it keeps it across super() calls']
     report.assumptions += ['terminate(), dispatch() and collect() run in the link thread only']
